@@ -14,7 +14,7 @@ func init() {
 		ID: "C27",
 		Rule: "histories (8–60 events; 150–400 for the penalty cap) of breaker firings, replica and master probe rounds and clock steps " +
 			"(0…9 s, cool-down ±1, down-after ±1) under the hard and the gradual policy, with re-fuses right after a restore, probe outages, " +
-			"replication lag and master outages mixed in; the real TryFuse/TryRecover run under a virtual clock; " +
+			"replication lag and master outages mixed in, fuse/restore cycles that run during a master outage or without a master node; the real TryFuse/TryRecover run under a virtual clock; " +
 			"non-trivial = some node changed status",
 		Generate: genC27,
 		Exec:     healthExec,
@@ -60,7 +60,23 @@ func genC27(g *core.Gen) {
 		if g.Intn(3) != 0 {
 			cfg.cool = core.Pick(g, []int64{0, 0, -1}) // gradual
 		}
+		// one case in three runs (partly) during a master outage: no master node at all, or the
+		// master silent for down-after seconds; it may come back between two cycles
+		outage := g.Intn(3) == 0
+		if outage && g.Intn(3) == 0 {
+			cfg.hasMaster = false
+		}
 		h := newHgen(g, cfg, hgProfile{pTrig: 1}, hgPickT0(g))
+		masterEv := func(fail bool) {
+			h.evs = append(h.evs, core.L(core.A("m"), core.I(h.now), h.probe(fail)))
+		}
+		if outage && cfg.hasMaster {
+			if cfg.down > 0 {
+				h.now += cfg.down
+			}
+			masterEv(true)
+			h.tag("master-probe-fails")
+		}
 		cycles := 2 + g.Intn(5)
 		for c := 0; c < cycles; c++ {
 			h.now += core.Pick(g, []int64{0, 1, 4, 8, 9, 20})
@@ -73,10 +89,17 @@ func genC27(g *core.Gen) {
 				if g.Intn(30) == 0 {
 					h.evs = append(h.evs, core.L(core.A("f"), core.I(h.now), core.A("conn"), core.B(true)))
 				}
+				if outage && cfg.hasMaster && g.Intn(12) == 0 {
+					masterEv(g.Intn(2) == 0) // the master answers again, or stays silent
+				}
 			}
 		}
 		h.tag("fuse-fires")
-		h.emit("fuse-restore-cycles")
+		if outage {
+			h.emit("fuse-restore-cycles", "master-outage")
+		} else {
+			h.emit("fuse-restore-cycles")
+		}
 	}
 	// long runs of bad recoveries that reach the penalty cap of the gradual policy:
 	// fuse, exactly as many successful rounds as the penalty in force (+0…2), fuse again within 2·PingPeriod
